@@ -1,6 +1,8 @@
 package interp
 
 import (
+	"strings"
+	"reflect"
 	"strconv"
 	"fmt"
 	"go/token"
@@ -261,11 +263,80 @@ func (in *Interp) marshalTarget(iv IfaceVal) (Value, types.Type) {
 	return v, t
 }
 
+func hasMarshalJSON(t types.Type) bool {
+	for _, tt := range []types.Type{t, types.NewPointer(t)} {
+		ms := types.NewMethodSet(tt)
+		for i := 0; i < ms.Len(); i++ {
+			if ms.At(i).Obj().Name() == "MarshalJSON" {
+				return true
+			}
+		}
+	}
+	return false
+}
+
+// jsonEmpty: encoding/json's "empty value" for omitempty (false, 0, nil pointer/interface, empty
+// array/slice/map/string); a symbolic number forks on == 0
+func (in *Interp) jsonEmpty(v Value) bool {
+	switch x := v.(type) {
+	case *sym.Term:
+		if x.Sort == sym.SBool {
+			return !in.Branch(x)
+		}
+		return in.Branch(in.F.Eq(x, in.F.Int(0)))
+	case string:
+		return x == ""
+	case SliceVal:
+		return x.Len == 0 && x.Ext == nil
+	case *Cell:
+		return x == nil
+	case IfaceVal:
+		return x.T == nil
+	case nil:
+		return true
+	}
+	return false
+}
+
 func registerBlobs(ex *Explorer) {
 	I := ex.intercepts
 	I["encoding/json.Marshal"] = func(in *Interp, fn *ssa.Function, a []Value) Value {
 		iv := a[0].(IfaceVal)
 		v, t := in.marshalTarget(iv)
+		if in.mode["jsonobj"] == 1 {
+			// object-level encoder (on request of a harness): a struct WITHOUT its own MarshalJSON becomes a
+			// modelled JSON object whose members follow the struct tags (name, "-", omitempty), each value the
+			// encoding of its field; the real decoders then run over that object
+			if st, ok := t.Underlying().(*types.Struct); ok && !hasMarshalJSON(t) {
+				if sv, ok := v.(*StructVal); ok {
+					d := &jsonDoc{}
+					for i := 0; i < st.NumFields(); i++ {
+						f := st.Field(i)
+						if !f.Exported() {
+							continue
+						}
+						tag := reflect.StructTag(st.Tag(i)).Get("json")
+						name, opts := tag, ""
+						if k := strings.Index(tag, ","); k >= 0 {
+							name, opts = tag[:k], tag[k+1:]
+						}
+						if name == "-" && opts == "" {
+							continue
+						}
+						if name == "" {
+							name = f.Name()
+						}
+						if strings.Contains(","+opts+",", ",omitempty,") && in.jsonEmpty(sv.F[i]) {
+							continue
+						}
+						fb := in.newBlob("json", sv.F[i], f.Type())
+						d.keys = append(d.keys, name)
+						d.vals = append(d.vals, fb)
+					}
+					return TupleVal{SliceVal{Ext: d}, IfaceVal{}}
+				}
+			}
+		}
 		return TupleVal{in.newBlob("json", v, t), IfaceVal{}}
 	}
 	// srv.unmarshalStrict(data, v): json.NewDecoder + DisallowUnknownFields + Decode; modelled as
